@@ -77,6 +77,7 @@ def ret_value(v, ret):
 SPEC = {
     "tq": lambda n, d: [tquo(n, d)], "tr": lambda n, d: [trem(n, d)], "tqr": lambda n, d: [tquo(n, d), trem(n, d)],
     "fq": lambda n, d: [fquo(n, d)], "fr": lambda n, d: [frem(n, d)],
+    "fqr": lambda n, d: [fquo(n, d), frem(n, d)], "cqr": lambda n, d: [cquo(n, d), crem(n, d)],
     "cq": lambda n, d: [cquo(n, d)], "cr": lambda n, d: [crem(n, d)],
     "emod": lambda n, d: [emod(n, d)], "divmod": lambda n, d: [equo(n, d), emod(n, d)], "equo": lambda n, d: [equo(n, d)],
     "exact": lambda n, d: [equo(n, d)],        # generated with d | n
@@ -92,7 +93,7 @@ F = {}
 def form(name, kind, nt="Z", dt="Z", ret=None):
     F[name] = (kind, nt, dt, ret)
 
-for p, k in [("gmp.tdiv_q", "tq"), ("gmp.tdiv_r", "tr"), ("gmp.tdiv_qr", "tqr"), ("gmp.fdiv_q", "fq"), ("gmp.fdiv_r", "fr"),
+for p, k in [("gmp.tdiv_q", "tq"), ("gmp.tdiv_r", "tr"), ("gmp.tdiv_qr", "tqr"), ("gmp.fdiv_qr", "fqr"), ("gmp.cdiv_qr", "cqr"), ("gmp.fdiv_q", "fq"), ("gmp.fdiv_r", "fr"),
              ("gmp.cdiv_q", "cq"), ("gmp.cdiv_r", "cr"), ("gmp.mod", "emod"), ("gmp.divexact", "exact")]:
     form(p, k)
 for p, k in [("gmp.tdiv_q_ui", "tq_w"), ("gmp.tdiv_r_ui", "tr_w"), ("gmp.tdiv_ui", "abs_tr"), ("gmp.cdiv_r_ui", "cr_w"),
